@@ -67,8 +67,8 @@ def conflict(l1, l2):
         return False
     k1 = {(sec, tuple(n for _, n in r['atoms']), r['meta'].get('version', 1)) for sec, rows in l1['inters'].items() for r in rows}
     k2 = {(sec, tuple(n for _, n in r['atoms']), r['meta'].get('version', 1)) for sec, rows in l2['inters'].items() for r in rows}
-    r1 = {pn[1] for pn, _ in l1['atoms_attr']}
-    r2 = {pn[1] for pn, _ in l2['atoms_attr']}
+    r1 = {pn[1] for pn, at in l1['atoms_attr'] if 'replace' in at}
+    r2 = {pn[1] for pn, at in l2['atoms_attr'] if 'replace' in at}
     return bool(k1 & k2) or bool(r1 & r2)
 
 
@@ -287,11 +287,17 @@ def run(ctx):
                 ff, names = ffgen.gen_arrangement_ff(rng)
                 g = ffgen.gen_arrangement_graph(rng, names)
                 ctx.feature('per_atom_resname_links')
+            elif rng.random() < 0.1:
+                # a link that replaces the type of an atom and another that selects the atom by its block's type
+                ff, g = ffgen.gen_replace_select_ff(rng)
+                ctx.feature('replace_and_select_links')
             else:
                 ff = ffgen.gen_ff(rng, uniform_nrexcl=rng.choice([1, None]))
                 g = ffgen.gen_resgraph(rng, ff)
             g2 = ffgen.permute_graph(rng, g)
             ff2 = reorder_ff(rng, ff)
+            if len(ff['links']) == 2 and ff2['links'] == ff['links'] and not conflict(*ff['links']):
+                ff2 = dict(ff2, links=list(reversed(ff['links'])))
         text = ffgen.render_ff(ff)
         base = ffgen.run_pipeline(text, g)
         rel = ffgen.run_pipeline(text, g2)
